@@ -16,6 +16,11 @@ The model follows the code, including its panics (`Panic`) and its defects:
     saying what was wrong);
   * (§9-b, §9-c — REPAIRED in /repo 72cec20: `__typename` was recognised by field name when the tree is built but
     by response key when it is printed; the leaf now carries `is_typename`, and so does the model);
+  * (REPAIRED in /repo dda35cd: a field went to the ALIASED group (`Others` of `__SelectionSet`) whenever it had an
+    alias, also when the alias is the field's own name (`a: a`); such a field was then never merged with unaliased
+    selections of the same response key.  It now goes to the aliased group only if the alias differs from the field name —
+    `isAliased`.  The pre-repair partition is kept as `implTreeOld` / `fieldsForOld` for the kernel-checked counterexample
+    `alias_equals_key_counterexample` of Props/C01.lean);
   * a leaf merged with an object under one response key panics (`mergeFields`; §9-h).
 Every function is structurally recursive (explicit fuel where the code recurses through fragments / merged trees),
 so concrete witnesses evaluate in the kernel.  Core Lean only.
@@ -315,6 +320,12 @@ def fieldTree (obj : TypeDef) (key name : Name) (skipped : Bool) (sub : Option (
       | none => .ok (.leaf key ty false)
       | some sub => do .ok (.object key (← rec ty sub))
 
+/-- does the field go to the aliased group (`Either::Right`)?  After dda35cd: only if the alias renames the field -/
+def isAliased (alias : Option (Name × Pos)) (name : Name) : Bool :=
+  match alias with
+  | some (a, _) => a != name
+  | none => false
+
 mutual
 /-- `get_type_for_selection_set` -/
 def implTree (S : Schema) (F : Frags) (mfuel : Nat) : Nat → GType → List Selection → Except Panic SelTree
@@ -341,7 +352,7 @@ def fieldsFor (S : Schema) (F : Frags) (mfuel : Nat) : Nat → Cond → List Sel
         let key := match alias with | some (a, _) => a | none => name
         let skipped ← checkSkip c.vars dirs
         let f ← fieldTree obj key name skipped sub (fun ty sub => implTree S F mfuel fuel ty sub)
-        .ok (some (alias.isSome, f))
+        .ok (some (isAliased alias name, f))
       | _ => .ok none
     let frags ← ss.mapM fun s => match s with
       | .field .. => (.ok [] : Except Panic (List Tagged))
@@ -359,6 +370,53 @@ def fieldsFor (S : Schema) (F : Frags) (mfuel : Nat) : Nat → Cond → List Sel
       | .inline (some (cond, _)) dirs sub _ => do
         if ← fragmentApplies S c.obj cond then
           let fs ← fieldsFor S F mfuel fuel c sub
+          if ← checkSkip c.vars dirs then .ok (toEmpty fs) else .ok fs
+        else .ok []
+    .ok (simple ++ frags.flatten)
+end
+
+mutual
+/-- PRE-REPAIR `get_type_for_selection_set` (before dda35cd), kept for `alias_equals_key_counterexample` -/
+def implTreeOld (S : Schema) (F : Frags) (mfuel : Nat) : Nat → GType → List Selection → Except Panic SelTree
+  | 0, _, _ => .error .outOfFuel
+  | fuel + 1, parent, ss =>
+    wrapTree (fun n => do
+      let conds ← branchConds S F mfuel ss n
+      conds.mapM fun c => do
+        let fs ← fieldsForOld S F mfuel fuel c ss
+        let un ← deepMerge mfuel ((fs.filter (!·.1)).map (·.2))
+        let al ← deepMerge mfuel ((fs.filter (·.1)).map (·.2))
+        .ok (Branch.mk c.obj.name c.vars un al)) parent
+/-- PRE-REPAIR `get_fields_for_selection_set`: a field is in the aliased group whenever it has an alias -/
+def fieldsForOld (S : Schema) (F : Frags) (mfuel : Nat) : Nat → Cond → List Selection → Except Panic (List Tagged)
+  | 0, _, _ => .error .outOfFuel
+  | fuel + 1, c, ss => do
+    let obj ← match S.typeDef? c.obj.name with
+      | some t => (.ok t : Except Panic TypeDef)
+      | none => .error .typeSystemError
+    let simple ← ss.filterMapM fun s => match s with
+      | .field alias name _ _ dirs sub => do
+        let key := match alias with | some (a, _) => a | none => name
+        let skipped ← checkSkip c.vars dirs
+        let f ← fieldTree obj key name skipped sub (fun ty sub => implTreeOld S F mfuel fuel ty sub)
+        .ok (some (alias.isSome, f))
+      | _ => .ok none
+    let frags ← ss.mapM fun s => match s with
+      | .field .. => (.ok [] : Except Panic (List Tagged))
+      | .spread n _ dirs _ =>
+        match F n with
+        | none => .error .typeSystemError
+        | some fd => do
+          if ← fragmentApplies S c.obj fd.cond then
+            let fs ← fieldsForOld S F mfuel fuel c fd.sel
+            if ← checkSkip c.vars dirs then .ok (toEmpty fs) else .ok fs
+          else .ok []
+      | .inline none dirs sub _ => do
+        let fs ← fieldsForOld S F mfuel fuel c sub
+        if ← checkSkip c.vars dirs then .ok (toEmpty fs) else .ok fs
+      | .inline (some (cond, _)) dirs sub _ => do
+        if ← fragmentApplies S c.obj cond then
+          let fs ← fieldsForOld S F mfuel fuel c sub
           if ← checkSkip c.vars dirs then .ok (toEmpty fs) else .ok fs
         else .ok []
     .ok (simple ++ frags.flatten)
